@@ -45,6 +45,13 @@ class MPoint:
     def to_real(self):
         from tinyflux import Point
 
+        if self.t is None:
+            # a point that has not been given a time yet (it gets one on insert)
+            p = Point()
+            p.measurement = self.m
+            p.tags = dict(self.tags)
+            p.fields = dict(self.fields)
+            return p
         return Point(
             time=from_us(self.t),
             measurement=self.m,
